@@ -230,8 +230,8 @@ impl Read {
         let root = fixture(ctx);
         let site = root.join("site");
         let mut hosts = Vec::new();
-        // 0: default extensions, default public dir, caches on; 1: Extensions::empty(); 2: custom public dir; 3: file cache off; 4: fs disabled
-        for i in 0..5 {
+        // 0: default extensions, default public dir, caches on; 1: Extensions::empty(); 2: custom public dir; 3: file cache off; 4: fs disabled; 5: every status cacheable
+        for i in 0..6 {
             let mut ext = if i == 1 { Extensions::empty() } else { Extensions::new() };
             // a Prepare extension that never applies; evaluating its predicate shows that Prepare extensions were consulted
             ext.add_prepare_fn(
@@ -245,6 +245,11 @@ impl Read {
             let mut opts = host::Options::default();
             if i == 2 {
                 opts.set_public_data_dir("pubcustom");
+            }
+            if i == 5 {
+                // every status may be cached — also the 403 of the internal `/./cors_fail` route a cross-origin request is
+                // rerouted to; a client that types that route itself is refused all the same, cached or not
+                opts.status_code_cache_filter = |_| host::CacheAction::Cache;
             }
             if i == 4 {
                 // no file system at all (a host that only runs extensions, e.g. a reverse proxy): unsafe targets are refused
@@ -267,7 +272,7 @@ impl Group for Read {
         "c01.rel"
     }
     fn rule(&self) -> &'static str {
-        "kvarn::handle_cache on a fixture tree (files inside public/, sentinel files beside and above it, a `..html`, a non-ASCII name, a custom public dir) for targets from the c01 alphabet x {GET, HEAD, POST, OPTIONS} x {default extensions, Extensions::empty(), custom public_data_dir, caches off, file system disabled}; the model predicts 400 / no-fs-path / the path relative to the public dir, which the harness resolves lexically in its own description of the tree to predict the content; oracle: the body never contains a sentinel marker and rejected targets are 400; non-trivial = the target contains a dot or an escape and is accepted"
+        "kvarn::handle_cache on a fixture tree (files inside public/, sentinel files beside and above it, a `..html`, a non-ASCII name, a custom public dir) for targets from the c01 alphabet x {GET, HEAD, POST, OPTIONS} x {default extensions, Extensions::empty(), custom public_data_dir, caches off, file system disabled, every status cacheable}; cross-origin requests first, so that the internal route's reply is in the cache when a client types the route; the model predicts 400 / no-fs-path / the path relative to the public dir, which the harness resolves lexically in its own description of the tree to predict the content; oracle: the body never contains a sentinel marker and rejected targets are 400; non-trivial = the target contains a dot or an escape and is accepted"
     }
     fn parallel(&self) -> bool {
         false
@@ -285,18 +290,29 @@ impl Group for Read {
             "/%2e%2e%2fsecret-%ff.txt", "/%2E%2E%2Fsecret-%c0.txt", "/%2e%2e%2f%ff", "/a%2f%2e%2e%2f%2e%2e%2fsecret-%fe.txt", "/%2e%2e%2fsecret-%ff.txt%3F"];
         for t in fixed {
             for m in ["GET", "HEAD", "POST"] {
-                for h in 0..5 {
+                for h in 0..6 {
                     v.push(format!("c01.rel {h} {m} {}", hex(t.as_bytes())));
                 }
             }
             // the same with a well-formed Range header and other headers attached
             v.push(format!("c01.rel 0 GET {} R", hex(t.as_bytes())));
         }
+        // a cross-origin request (rerouted by the Prime extension to the internal `/./cors_fail`, whose 403 host 5 caches), then
+        // the internal routes as a client types them
+        for h in [0, 5] {
+            v.push(format!("c01.rel {h} GET {} O", hex(b"/a/b.html")));
+            v.push(format!("c01.rel {h} HEAD {} O", hex(b"/index.html")));
+            for t in ["/./cors_fail", "/./cors_fail?x=1", "/./cors_options", "/%2e/cors_fail"] {
+                for m in ["GET", "HEAD"] {
+                    v.push(format!("c01.rel {h} {m} {}", hex(t.as_bytes())));
+                }
+            }
+        }
         let n = if ctx.mode == Mode::Quick { 2500 } else { 100_000 };
         for _ in 0..n {
             let m = *rng.pick(&["GET", "GET", "GET", "HEAD", "POST", "OPTIONS"]);
             let extra = if rng.chance(1, 3) { " R" } else { "" };
-            v.push(format!("c01.rel {} {m} {}{extra}", rng.below(5), hex(gen_target(rng, &TOKS).as_bytes())));
+            v.push(format!("c01.rel {} {m} {}{extra}", rng.below(6), hex(gen_target(rng, &TOKS).as_bytes())));
         }
         v
     }
@@ -309,6 +325,9 @@ impl Group for Read {
             return "not-a-uri".into();
         }
         let mut b = Request::builder().method(p[2]).uri(uri);
+        if p.get(4) == Some(&"O") {
+            b = b.header("origin", "http://evil.test");
+        }
         if p.get(4) == Some(&"R") {
             b = b.header("range", "bytes=0-4095").header("accept-encoding", "gzip").header("if-modified-since", "Sun, 06 Nov 1994 08:49:37 GMT");
         }
@@ -319,8 +338,9 @@ impl Group for Read {
         let consulted = PREPARE_CONSULTED.load(std::sync::atomic::Ordering::SeqCst) - consulted_before;
         let body = String::from_utf8_lossy(&reply.identity_body).into_owned();
         let id = FILES.iter().map(|f| f.1).find(|m| body.contains(m)).unwrap_or("-");
-        // the final status is decided in SendKind::send for sanitize errors: reproduce that mapping
-        let status = match &reply.sanitize_data { Err(_) => 400, Ok(_) => reply.response.status().as_u16() };
+        // the status as it is (the 400 page of a refused path is made in `get_response`; nothing later replaces a response —
+        // this line once *assumed* 400 for every sanitize error and so could not see a cached reply served for an unsafe path)
+        let status = reply.response.status().as_u16();
         if reply.sanitize_data.is_err() && consulted > 0 {
             return format!("{status} {id} PREPARE-CONSULTED");
         }
@@ -328,6 +348,10 @@ impl Group for Read {
     }
     fn inconclusive(&self, out: &str) -> bool {
         out == "not-a-uri"
+    }
+    fn compare_with_model(&self, line: &str) -> bool {
+        // the CORS decision of a request with an Origin is C13's model; here such requests only warm the cache
+        !line.ends_with(" O")
     }
     fn oracle(&self, _ctx: &Ctx, line: &str, out: &str) -> Option<(String, String)> {
         if out == "panic" {
